@@ -345,3 +345,16 @@ fn c18_bound() {
     assert!((d as i32) < (WHITE_WINS as i32) - 255 && (d as i32) > (BLACK_WINS as i32) + 255, "static magnitude strictly below every mate score");
     assert!(WHITE_WINS == i16::MAX / 2 && BLACK_WINS == i16::MIN / 2);
 }
+
+// vacuity witnesses
+gen_stubbed!(witness_c06_ending_w, 8, {
+    ending(true, 0);
+    assert!(false, "vacuity witness");
+});
+
+#[kani::proof]
+#[kani::unwind(8)]
+fn witness_c18_eg() {
+    c18_eg();
+    assert!(false, "vacuity witness");
+}
